@@ -1,5 +1,5 @@
 (* C01 — dcat reproduces file content byte for byte.  Statements only. *)
-From DT Require Import Lib.Bytes Gen.Consts Model.C01_Cat Proofs.C01_Cat.
+From DT Require Import Lib.Bytes Gen.Consts Model.C01_Cat Proofs.C01_Cat Model.C01_Eof Proofs.C01_Eof.
 
 (* Full statement: for every content, MaxLineLength >= 1 and transport chunking, plain dcat
    prints the content with a newline after each run of MaxLineLength non-newline bytes. *)
@@ -67,3 +67,18 @@ Example C01_example :
   guard_bytes 4 content = true
   /\ dcat_bytes 4 [3; 1; 5] content = [x61; x62; x0a; x0a; x31; x32; x33; x34; x0a; x35; x2e; xc2; x0a; x7a].
 Proof. vm_compute. split; reflexivity. Qed.
+
+(* The end of the file.  When a read returns EOF the reader (cat / grep / mapreduce mode) hands on the pending
+   unterminated last line and stops - for every file nobody shortened, whether or not the truncation timer (first tick
+   3 s after the reader started) has ticked and whichever ready case its select takes: the EOF branch of [reader] above.
+   The comparison operator of readFile.truncated is read from the Go source on every run (c_truncated_cmp). *)
+Theorem C01_eof_delivers_rest : forall (tick pick pending : bool) (offset size : Z), (offset <= size)%Z ->
+  at_eof false tick false pick pending (Some offset) (Some size) = EofStop pending.
+Proof. exact eof_delivers_rest. Qed.
+Print Assumptions C01_eof_delivers_rest.
+Theorem C01_eof_truncated_stops : forall (follow pick pending : bool) (offset size : Z), (size < offset)%Z ->
+  at_eof follow true false pick pending (Some offset) (Some size) = EofStop false.
+Proof. exact eof_truncated_stops. Qed.
+Theorem C01_eof_follow_continues : forall (tick pick pending : bool) (offset size : Z), (offset <= size)%Z ->
+  at_eof true tick false pick pending (Some offset) (Some size) = EofContinue.
+Proof. exact eof_follow_continues. Qed.
